@@ -465,21 +465,17 @@ def pow_symm(A, m):
     
     .. note:: This function is not differentiable in the `m` argument.
 
-    .. note:: The derivative of this function is inaccurate on matrices
-    with nearly degenerate eigenvalues. We lack a high-quality implementation
-    of the relative difference of the eigenvalue function. (The derivative of
-    matrices with exactly equal eigenvalues is computed correctly).
     """
     return symmetric_matrix_function(A, lambda x: np.power(x, m))
 
-# This function loses precision when lam1 -> lam2.
-# Please replace with a numerically stable implmentation if you know how!
+# (x^m - y^m)/(x - y) = y^(m-1) * ((1+d)^m - 1)/d with d = x/y - 1, and (1+d)^m - 1 = expm1(m*log1p(d))
+# keeps its relative accuracy as lam1 -> lam2.
 def _pow_relative_difference(lam1, lam2, m):
     lams = np.array([lam1, lam2])
     i = np.argsort(np.abs(lams))
     lam_small, lam_big = lams[i]
-    arg = lam_small/lam_big
-    return lam_big**(m-1)*(arg**m - 1)/(arg - 1)
+    d = lam_small/lam_big - 1.0
+    return lam_big**(m-1)*np.expm1(m*np.log1p(d))/d
 
 @pow_symm.defjvp
 def _pow_symm_jvp(primals, tangents):
